@@ -125,4 +125,25 @@ def _cur_placed(cx, k, v):
     return z3.ForAll([q], z3.Implies(z3.And(q == k, Tk.a[q] != ""), z3.Or(in_chunks(v.items, Tk.a[q]), in_list(v.ports_i, Tk.a[q]))))
 
 
-sp.loop(0, _inv, hints=[_mono, _cur, _kept_chunks, _kept_pending, _cur_placed])
+def _old_sound(cx, k, v):
+    """what was finished or pending at the head of the iteration consists of tokens seen before k + 1"""
+    return z3.And(chunks_sound(v.head.items, k + 1), list_sound(v.head.ports_i, k + 1))
+
+
+def _cur_seen(cx, k, v):
+    q = z3.Int("q!cs")
+    Tk = T(v.ports_range)
+    return z3.ForAll([q], z3.Implies(z3.And(q == k, Tk.a[q] != ""), TOKK(Tk.a[q], k + 1)))
+
+
+def _old_complete(cx, k, v):
+    """the invariant's completeness clause at the head of the iteration, restated so that it sits among the hints"""
+    Tk = T(v.ports_range)
+    return S.forall(0, k, lambda t: z3.Implies(Tk.a[t] != "", z3.Or(in_chunks(v.head.items, Tk.a[t]), in_list(v.head.ports_i, Tk.a[t]))))
+
+
+# clause numbers of _inv: 0,1 lengths; 2 non-empty; 3 chunks sound; 4 pending sound; 5 complete; 6 ranges alone; 7 pending digits; 8 limit; 9 pending limit
+for _h, _cl in ((_mono, (3, 4)), (_cur, (3, 4)), (_cur_seen, (3, 4)), (_old_sound, (3, 4)),
+                (_old_complete, (5,)), (_kept_chunks, (5,)), (_kept_pending, (5,)), (_cur_placed, (5,))):
+    _h.for_clauses = _cl
+sp.loop(0, _inv, hints=[_mono, _cur, _cur_seen, _old_sound, _old_complete, _kept_chunks, _kept_pending, _cur_placed])
